@@ -933,6 +933,10 @@ class OmniParser(PVLParser):
     # Statement that is being (or was last) parsed, see _empty_value().
     _eq_pos = None
 
+    # For each dash-continuation that parse() removed: its position in
+    # self.doc, and how many newline characters went with it.
+    _continuations = ()
+
     def _empty_value(self, pos):
         if self._eq_pos is not None:
             eq_pos = self._eq_pos
@@ -941,6 +945,10 @@ class OmniParser(PVLParser):
             # could also be one inside a comment.
             eq_pos = self.doc.rfind("=", 0, pos)
         lc = linecount(self.doc, eq_pos)
+        # self.doc has lost the line ends of any dash-continued lines
+        # before this point, but the line number should be that of the
+        # text as it was given to parse():
+        lc += sum(n for (p, n) in self._continuations if p <= eq_pos)
         self.errors.append(lc)
         return EmptyValueAtLine(lc)
 
@@ -953,8 +961,16 @@ class OmniParser(PVLParser):
         all whitespace characters that begin the next line will
         be removed.
         """
-        nodash = re.sub(r"-[\n\r\f]\s*", "", s)
+        dash_re = re.compile(r"-[\n\r\f]\s*")
+        nodash = dash_re.sub("", s)
         self.doc = nodash
+        self._continuations = []
+        removed = 0
+        for m in dash_re.finditer(s):
+            self._continuations.append(
+                (m.start() - removed, m.group().count("\n"))
+            )
+            removed += len(m.group())
         self._last_value = None
         self._eq_pos = None
 
